@@ -1296,6 +1296,40 @@ func (w *world) enumerate(target int64, salt int64) {
 			if f := w.fingerprint(nd.Inc); f != refFinger {
 				w.viol("C06", "not-applied-exactly-once", class, "%s: nonces, receipts, key values or key-update histories of the recovered node differ from the uncrashed run although all hashes agree", when)
 			}
+			// the block store of the recovered node holds the whole chain, block by block and commit by commit
+			out.Evals["C06.store-complete"]++
+			func() {
+				defer func() {
+					if r := recover(); r != nil {
+						w.viol("C06", "block-store-incomplete", class, "%s: reading the block store of the recovered node back panics: %.200v", when, r)
+					}
+				}()
+				for h := int64(1); h <= nd.Inc.Store.Height() && h <= B; h++ {
+					blk := nd.Inc.Store.LoadBlock(h)
+					if blk == nil || !bytes.Equal(blk.Hash(), w.chain[h-1].Hash()) {
+						w.viol("C06", "block-store-incomplete", class, "%s: block %d of the recovered node's store is missing or differs", when, h)
+						return
+					}
+					if nd.Inc.Store.LoadSeenCommit(h) == nil || (h > 1 && nd.Inc.Store.LoadBlockCommit(h-1) == nil) {
+						w.viol("C06", "block-store-incomplete", class, "%s: a commit of block %d is missing in the recovered node's store", when, h)
+						return
+					}
+				}
+			}()
+			// and it starts once more from what it has on disk
+			if len(out.Violations) == 0 {
+				out.Evals["C06.restart-again"]++
+				nd.Inc.Life.Kill("clean restart after recovery")
+				nd.Inc.Quiesce()
+				w.quietStart = true
+				up := w.startReplica(nd)
+				w.quietStart = false
+				if !up {
+					w.viol("C06", "second-start-failed", class, "%s: the recovered node, stopped cleanly after finishing the chain, does not start again: %.200s %s", when, nd.Inc.PanicVal, nd.Inc.Exited)
+				} else if nd.Inc.State.LastBlockHeight != B || !bytes.Equal(nd.Inc.State.AppHash, w.refApp[B-1]) {
+					w.viol("C06", "second-start-failed", class, "%s: after one more clean restart the node is at height %d (chain has %d) or has another application hash", when, nd.Inc.State.LastBlockHeight, B)
+				}
+			}
 		}
 		w.retire(nd)
 	}
